@@ -200,7 +200,8 @@ func operandInner(v interface{}) interface{} {
 func sameError(a, b error) (same bool) {
 	defer func() {
 		if recover() != nil {
-			same = reflect.DeepEqual(a, b) // uncomparable dynamic type (func field)
+			// uncomparable dynamic type (func field): same type and same text
+			same = reflect.TypeOf(a) == reflect.TypeOf(b) && (reflect.DeepEqual(a, b) || safeErrorText2(a) == safeErrorText2(b))
 		}
 	}()
 	return a == b
@@ -232,4 +233,14 @@ func isFmtCompatVal(v *Val) bool {
 		}
 	}
 	return true
+}
+
+// safeErrorText2: the error text, or the panic value if Error panics.
+func safeErrorText2(err error) (s string) {
+	defer func() {
+		if r := recover(); r != nil {
+			s = fmt.Sprintf("<panic:%v>", r)
+		}
+	}()
+	return err.Error()
 }
